@@ -25,6 +25,12 @@ class Machine(OpsMixin, EvalMixin, CallMixin, Interp):
         self.intrinsics.setdefault(_r.Random.randrange, lambda m, a, k: m.b_randbelow(a[1:], k))
         self.intrinsics.setdefault(_s.randbelow, lambda m, a, k: m.b_randbelow(a, k))
         self.intrinsics.setdefault(_s.randbits, lambda m, a, k: m.b_randbits(a, k))
+        import hmac as _h, hashlib as _hl
+        for f in (_h.new, _h.HMAC, _hl.new):
+            self.intrinsics.setdefault(f, (lambda ff: (lambda m, a, k: m.call_builtin(ff, a, k)))(f))
+        if isinstance(_hl.pbkdf2_hmac, __import__("types").FunctionType):
+            self.intrinsics.setdefault(_hl.pbkdf2_hmac, lambda m, a, k: m.call_builtin(_hl.pbkdf2_hmac, a, k))
+        self.intrinsics.setdefault(_h.compare_digest, lambda m, a, k: m.equal(a[0], a[1]))
         self.outcome = None
         self.old_frame = None
         self.active_exc = []
@@ -41,7 +47,9 @@ class Contract:
                  returns=None, invariants=None, bv=None, by_contract=False, props=(),
                  setup=None, modifies=None, call_requires=None, result_maker=None, args=None,
                  timeout_ms=None, max_paths=None, method_of=None, build=None, fuel=None, note="",
-                 gen=None):
+                 gen=None, nl_uf=False, tiers=("quick", "thorough")):
+        self.tiers = tuple(tiers)                 # tiers in which the deductive job runs (bounded companion: always)
+        self.nl_uf = nl_uf                        # symbolic*symbolic products as an uninterpreted function (zn_ring reads them)
         self.gen = gen                            # callable(rng, tier) -> iterable of concrete input dicts
         self.name = name
         self.short = name.split(".", 2)[-1] if name.startswith("buidl.") else name
@@ -182,6 +190,11 @@ def snapshot(m, v):
 def concretize_value(model, v, bv=None):
     def ev(t):
         return model.eval(t, model_completion=True)
+    if isinstance(v, z3.ExprRef):
+        r = ev(v)
+        return r.as_long() if z3.is_int_value(r) or z3.is_bv_value(r) else z3.is_true(r)
+    if isinstance(v, TInt):
+        return {"__tint__": v.cls.__module__ + "." + v.cls.__qualname__, "value": concretize_value(model, v.val)}
     if isinstance(v, SInt):
         return ev(v.t).as_long()
     if isinstance(v, SBV):
@@ -222,6 +235,8 @@ def concretize_value(model, v, bv=None):
             pre = [concretize_value(model, snapshot_elem(elem(I(i)))) for i in range(n)]
             return pre + [concretize_value(model, x) for x in v[2]]
         if tag == "$obj":
+            if v[1].endswith("pecc.S256Point") and "_dl" in v[2]:
+                return {"__point__": concretize_value(model, v[2]["_dl"])}
             return {"__class__": v[1], "fields": {k: concretize_value(model, x) for k, x in v[2].items()}}
         if tag == "$stream":
             return {"__stream__": concretize_value(model, v[1])}
@@ -303,8 +318,13 @@ def verify_contract(c, reg=REG, timeout_ms=10000, max_paths=None):
     """-> (results, stats).  Every (clause, path) pair is one obligation."""
     results = []
     t_start = time.time()
+    axioms = list(reg.axioms)
+    if getattr(c, "nl_uf", False):
+        from .ops import NLMUL
+        _x, _y = z3.Ints("nl_x nl_y")
+        axioms.append(z3.ForAll([_x, _y], NLMUL(_x, _y) == NLMUL(_y, _x), patterns=[NLMUL(_x, _y)]))
     ex = Explorer(timeout_ms=c.timeout_ms or timeout_ms, max_paths=c.max_paths or max_paths or 4096,
-                  axioms=reg.axioms)
+                  axioms=axioms)
     fn = c.fn
     fname = c.name
     counter = {"path": 0, "returns": 0, "raises": 0}
@@ -312,6 +332,7 @@ def verify_contract(c, reg=REG, timeout_ms=10000, max_paths=None):
     def body(p):
         m = Machine(p, reg, bv=c.bv)
         m.top_fn = fn
+        m.nl_uf = getattr(c, "nl_uf", False)
         pid = [None]
         seen = {}
 
